@@ -1,6 +1,7 @@
 (* C06 — the printed JSON parses back to exactly the decoded document. *)
 From Coq Require Import List NArith Bool Arith.
 From Coq Require Import ZArith.
+From PV Require Gen.Regexes Spec.PublishedRegexes.
 From PV Require Import Base.Bytes Base.Lit Base.Json Model.Pretty Model.JsonLoads Proofs.PrettyFacts Proofs.JsonLoadsFacts.
 Import ListNotations.
 Open Scope N_scope.
@@ -59,6 +60,13 @@ Theorem C06_loads_any_spelling : forall s j T,
   tokens s = Some T -> spells j T -> keys_ok j -> (jdepth j <= depth_limit)%nat -> loads s = LOk j.
 Proof. exact loads_spelling. Qed.
 Print Assumptions C06_loads_any_spelling.
+
+
+(* the key scan of prettyPrint is the published regular expression (the model's scan_body / pp_line mirror it): regenerated from /repo on every run *)
+Theorem C06_source_key_regex :
+  Gen.Regexes.re_KEY_RE = Spec.PublishedRegexes.re_KEY_RE.
+Proof. repeat split; reflexivity. Qed.
+Print Assumptions C06_source_key_regex.
 
 (* the hypothesis is decidable; the extracted binary evaluates wf_jsonb on every document the decode model produces in the runs
    (evidence: doc-wf) *)
